@@ -130,7 +130,10 @@ impl<'a> Sess<'a> {
                 self.out.ev(v);
                 self.sk[id] = Some(sk);
             }
-            Err(e) => self.panic("update", e),
+            Err(e) => {
+                self.sk[id] = Some(CpcSketch::new(4)); // the run is over (dead); keep the slot valid
+                self.panic("update", e)
+            }
         }
     }
     pub fn chk(&mut self, id: usize) {
